@@ -132,6 +132,12 @@ def step_body(name, T, want, dt=0.25, pops=1, transfers=0, junction_init=False, 
                     if not isinstance(c, am.SourceCompartment):
                         tot = tot + mr.comp_val(am, c, 0)
             state["pre_flush_total"] = tot
+            if state.get("supplied_junction_contents") and "flush_seen" not in state:
+                # people placed in a junction by the (explicit) initial conditions are there when the initial flush starts
+                state["flush_seen"] = True
+                for (cn, pn), v in state["supplied_junction_contents"].items():
+                    cobj = [c for pop in model.pops if pop.name == pn for c in pop.comps if c.name == cn][0]
+                    env.claim("C04_supplied_junction_contents_present_before_flush|%s|%s" % (cn, pn), env.eq(cobj.vals[0], v, 0), key="junction_contents_supplied")
             state["pre_flush"] = {(c.name, pop.name): mr.comp_val(am, c, 0) for pop in model.pops for c in pop.comps}
 
         def post_flush(model):
@@ -430,6 +436,8 @@ def step_body(name, T, want, dt=0.25, pops=1, transfers=0, junction_init=False, 
                     for c in pop.comps:
                         if isinstance(c, am.JunctionCompartment):
                             init.values[(c.name, pop.name)] = env.real("j0|%s|%s" % (c.name, pop.name), 0, 1e6) if not c.duration_group else 0.0
+                            if not c.duration_group:
+                                state.setdefault("supplied_junction_contents", {})[(c.name, pop.name)] = init.values[(c.name, pop.name)]
             ps.initialization = init
             m = mr.build_model(env, P.settings, F, ps)
             with Hooks(am, pre=dict(flush_junctions=pre_flush, update_comps=pre_comps), post=dict(update_pars=post_pars, flush_junctions=post_flush, update_links=post_links, update_comps=post_comps)):
